@@ -22,20 +22,25 @@ def check_table():
 
 NOTES = {}
 def seed_table():
-    rows = ["| change | site and effect (short) | needs | caught by (quick tier) | was missed until |", "|----|----|----|----|----|"]
+    rows = ["| change | site and effect (short) | needs | caught by (quick tier, final) | history |", "|----|----|----|----|----|"]
+    tot = det = 0
     for d in sorted(glob.glob('/verif/seeded/*/')):
         name = os.path.basename(d.rstrip('/'))
         mp = d + 'meta.json'
         if not os.path.exists(mp): continue
         m = json.load(open(mp))
-        det = []
+        cells = []
+        anydet = False
         for k, v in m.get('checks', {}).items():
             if v.get('detected'):
+                anydet = True
                 labs = sorted(set(os.path.basename(l.split('replay=')[1]).rsplit('-', 1)[0] for l in v['violation_lines']))
-                det.append(f"{k}: {', '.join(labs[:3])}")
+                cells.append(f"{k}: {', '.join(labs[:3])}")
             else:
-                det.append(f"{k}: **not caught**")
-        rows.append(f"| {name} | {m.get('short','')} | {m.get('needs','')} | {'; '.join(det)} | {m.get('fixed_by','')} |")
+                cells.append(f"{k}: not caught")
+        tot += 1; det += anydet
+        rows.append(f"| {name} | {m.get('short','')} | {m.get('needs','')} | {'; '.join(cells)} | {m.get('fixed_by','')} |")
+    rows.append(f"Final state: {det} of {tot} stored changes are reported as VIOLATION (confirmed by native replay) by the quick tier of a registered check.")
     return '\n'.join(rows)
 
 def main():
